@@ -173,7 +173,26 @@ def r1(ctx, new):
             det = short(val, 100)
         # the bytes written are label[1..5]
         rng_ok = any(callee_decl(t2).endswith('index_mut') and canon(f2.args(b2)[1]) in ('range(1,5)', 'range(1,None)') for f2 in frames for b2, t2 in f2.calls())
-        rep.check(ok_shape and len(wr) == 1 and le and idx_ok and rng_ok, 'R-C11-1', 'R-C11-1/chain%d/label' % n,
+        pure = False
+        if base.tag == 'array' and len(base.args) == 5 and base.args[0].tag == 'const' and not evs:
+            # the label written as one expression: [tag, b0, b1, b2, b3] with b_k = idx.to_le_bytes()[k]
+            src = None
+            pure = True
+            for k, x in enumerate(base.args[1:]):
+                x = strip(x)
+                good_k = x.tag == 'elemat' and x[2].tag == 'const' and x[2][1] == k and strip(x[1]).tag == 'call' and strip(x[1])[1].endswith('<impl u32>::to_le_bytes')
+                if not good_k or (src is not None and strip(x[1]) is not src):
+                    pure = False
+                    break
+                src = strip(x[1])
+            if pure:
+                tag = base.args[0][1]
+                tags[target or 'chain%d' % n] = tag
+                conv = [y for y in walk(src) if y.tag == 'call' and y[1].endswith('try_from')]
+                idxs = [y for y in walk(src) if y.tag == 'index']
+                pure = bool(conv) and bool(idxs) and not ctx.adapters(src)
+                det = short(src, 100)
+        rep.check(pure or (ok_shape and len(wr) == 1 and le and idx_ok and rng_ok), 'R-C11-1', 'R-C11-1/chain%d/label' % n,
                   'label %d is [tag, LE32(party index)] with the party index = checked u32 of the loop index (%s)' % (n, det),
                   'label %d: 5-byte array=%s, one little-endian 4-byte write=%s/%s, into bytes 1..5=%s, index is the loop index=%s (%s)' % (n, ok_shape, len(wr), le, rng_ok, idx_ok, det), where)
     rep.check(tags.get('g_vec') == 0x47 and tags.get('h_vec') == 0x48, 'R-C11-1', 'R-C11-1/tags', 'the G vector uses tag 0x47 (\'G\') and the H vector tag 0x48 (\'H\')',
